@@ -9,7 +9,11 @@ def main():
         r = kxlib.run_kani(dst, filters, jobs=12, timeout=3000, harness_timeout=next((a[5:] for a in sys.argv if a.startswith('--ht=')), None))
         print("rc", r["rc"], "wall %.1f" % r["wall_s"], "compile_error:", r["compile_error"])
         if r["compile_error"]:
-            print(r["raw_tail"])
+            import re
+            L = r["raw"].split("\n")
+            for i, l in enumerate(L):
+                if re.match(r"^error(\[E\d+\])?:", l):
+                    print("\n".join(x[:200] for x in L[i:i+7])); print("   ...")
         for h, v in r["harnesses"].items():
             print(f"{str(v['status']):10} {h} checks={v['total']} solver={v['solver_s'] or 0:.1f}s symex={v['symex_s'] or 0:.1f}s dur={v['duration_ms']}")
             for c in v["failed_checks"]: print("    FAILED:", (c["description"] or "")[:150], "|", c["function"], c["location"])
